@@ -31,7 +31,9 @@ def script_of(coll, lines):
             out.append(l)
         elif l.startswith("sub "):
             w = l.split()
-            out.append("sub " + " ".join(w[2:]))
+            src = [t for t in w if t.startswith("src=")]
+            rest = [t for t in w[2:] if not t.startswith("src=")]
+            out.append(("sub2 %s " % src[0][4:] if src else "sub ") + " ".join(rest))
         elif l == "op done":
             out.append("done")
         elif l.startswith(("op ", "drop", "cut", "read ", "settle", "borrow ")):
